@@ -80,6 +80,12 @@ def run_contract(task, budget_s=120):
         out['obligations'].append({'name': 'bind-contract-to-source', 'status': 'undecided', 'why': 'outside the supported subset / contract '
                                    'cannot be bound: %s' % e, 'kind': 'scaffolding'})
         return out
+    except (KeyError, AttributeError, TypeError, IndexError, ValueError, z3.Z3Exception, AssertionError, RecursionError) as e:
+        # source that the generator cannot bind the sidecar contract to (renamed locals the invariants mention, constructs
+        # outside the subset that surface as a type confusion...): the function is NOT proved; never an alarm, never a crash
+        out['obligations'].append({'name': 'bind-contract-to-source', 'status': 'undecided', 'why': 'contract cannot be bound to the '
+                                   'current source (%s: %s)' % (type(e).__name__, str(e)[:200]), 'kind': 'scaffolding'})
+        return out
     if not obls:
         out['obligations'].append({'name': 'non-vacuity', 'status': 'undecided', 'why': 'zero obligations generated', 'kind': 'scaffolding'})
         return out
@@ -97,7 +103,10 @@ def run_contract(task, budget_s=120):
         if time.time() > t_end:
             out['obligations'].append({'name': nm, 'status': 'undecided', 'why': 'function budget exhausted', 'kind': ob.kind})
             continue
-        r = solve.discharge(ob, timeout_ms=tmo, rounds=rounds, sum_frame=not c.get('no_sum_frame'), small=small)
+        try:
+            r = solve.discharge(ob, timeout_ms=tmo, rounds=rounds, sum_frame=not c.get('no_sum_frame'), small=small)
+        except (z3.Z3Exception, KeyError, AttributeError, TypeError, RecursionError) as e:
+            r = {'status': 'undecided', 'why': 'solver interface error (%s: %s)' % (type(e).__name__, str(e)[:160]), 'backend': '-', 'ms': 0}
         rec = {'name': nm, 'status': r['status'], 'backend': r.get('backend'), 'ms': r.get('ms'), 'kind': ob.kind,
                'nhyps': r.get('nhyps'), 'line': ob.line}
         if r['status'] == 'refuted':
